@@ -281,7 +281,17 @@ def r05_4_write_time_additions(chk):
         bits = s.key.split(".")
         owner = chk.ix.find_class(bits[0])
         fld = bits[-2] if len(bits) >= 3 else ""
-        loose = s.field == "units" or any(falsy_ok.get((c.name, fld), False) for c in (owner.mro() if owner else []))
+        # the declarations this store can concern: those of the owner's hierarchy and - for a store made in a mix-in -
+        # of every item class that includes the mix-in
+        related = []
+        for d in model.decls:
+            if d.field != fld:
+                continue
+            m_ = d.item_cls.mro()
+            if (owner is not None and (owner in m_ or d.item_cls in owner.mro())) or \
+                    (s.func.cls is not None and s.func.cls in m_):
+                related.append(falsy_ok[(d.item_cls.name, d.field)])
+        loose = s.field == "units" or (bool(related) and all(related))
         unset = [l for l in s.pc if (l[0] == "cmp" and l[1] == "is" and l[2] == target and l[3] == ("const", None))
                  or (loose and l == ("not", target))]
         k = (s.key, bool(unset))
